@@ -346,7 +346,7 @@ func TestVerif_C41(t *testing.T) {
 	}
 	r := verifkit.Start(t, "C41", "exploration")
 	defer r.Finish()
-	nBatches, perBatch := r.Pick(3, 8), r.Pick(2500, 8000)
+	nBatches, perBatch := r.Pick(3, 8), r.Pick(2000, 8000)
 	r.SetRule(fmt.Sprintf("%d child processes x %d files: object bytes (generated valid / truncated / 1-3 mutations / random) stored plain, inside a well-formed combined file, inside a combined file whose member prefix is damaged (length 0, 1, +-2, huge; other OID; bad version; truncated file), zstd-compressed, or as a damaged zstd stream; Head, GetStream, ReadHeader, ReadObject, ReadObjectParts, GetRangeStream must not panic and must agree with object.Unmarshal for intact valid content; distinct = (content kind, wrapping, ok/error pattern)", nBatches, perBatch))
 	vf41.RunBatches(t, r, "TestVerif_C41", "fstree", nBatches, perBatch, 25*time.Minute)
 	if r.Counter("agreement_checks_Head") == 0 || r.Counter("maximal_header_objects") == 0 {
